@@ -411,6 +411,34 @@ func (in *Interp) intrinsic(name string, fn *ssa.Function, args []Value) []Value
 		if real {
 			return one(in.mathContract("cos", T(0)))
 		}
+	case "encoding/json.NewDecoder", "encoding/json.NewEncoder":
+		// environment: the JSON codec is replaced by a stash shared with the harness
+		return []Value{(*PtrV)(nil)}
+	case "(*encoding/json.Decoder).Decode":
+		src, ok := in.stash["json-request"]
+		if !ok {
+			panic(unsupported{"json Decode without a stashed request"})
+		}
+		if src == nil {
+			// the harness asked for a decoding error (malformed request)
+			o := in.newObject(types.Typ[types.String], 1, "error")
+			o.slots[0] = StrV("decode error")
+			return []Value{&IfaceV{typ: errorStringType, val: &PtrV{obj: o}}}
+		}
+		dst := args[1].(*IfaceV).val.(*PtrV)
+		sp := src.(*PtrV)
+		n := len(sp.obj.slots) - sp.off
+		if m := len(dst.obj.slots) - dst.off; m < n {
+			n = m
+		}
+		for i := 0; i < n; i++ {
+			in.writeSlot(dst.obj, dst.off+i, sp.obj.slots[sp.off+i])
+		}
+		return []Value{&IfaceV{}}
+	case "(*encoding/json.Encoder).Encode":
+		in.stash["json-response"] = args[1]
+		in.stashCount["json-response"]++
+		return []Value{&IfaceV{}}
 	case "errors.New":
 		o := in.newObject(types.Typ[types.String], 1, "error")
 		o.slots[0] = args[0]
@@ -469,6 +497,28 @@ func (in *Interp) sprint(name string, args []Value) Value {
 						fmt.Fprint(&sb, x.f)
 					}
 				}
+			} else if x.sort.IsFP() {
+				// documented contract of fmt for floats: NaN, +Inf, -Inf; anything finite is opaque
+				ts := in.ts
+				nan := in.fpPred("fisnan", x)
+				inf := in.fpPred("fisinf", x)
+				neg := in.fpPred("fisneg", x)
+				cls := []struct {
+					c *Term
+					s string
+				}{{nan, "NaN"}, {ts.And(inf, ts.Not(neg)), "+Inf"}, {ts.And(inf, neg), "-Inf"}, {ts.And(ts.Not(nan), ts.Not(inf)), "<finite>"}}
+				var feas []int
+				for i, k := range cls {
+					if in.feasible(k.c) {
+						feas = append(feas, i)
+					}
+				}
+				if len(feas) == 0 {
+					panic(pathDead{"sprint: infeasible"})
+				}
+				pick := feas[in.chooseAmong(len(feas), fmt.Sprintf("fmt-float-class#%d", x.id))]
+				in.assume(cls[pick].c)
+				sb.WriteString(cls[pick].s)
 			} else {
 				sb.WriteString("<sym>")
 			}
